@@ -296,9 +296,24 @@ def r_add_refusals(model, rep):
     cat, srpm = ("param", "category"), ("param", "srpm_nevra")
     src = ("cmp", ("==",), (cat, ("const", "source")))
     nsrc = ("cmp", ("!=",), (cat, ("const", "source")))
+    def table(fn_):
+        """the condition means fn_(category is 'source', srpm_nevra is None), whatever its spelling"""
+        def pred(t):
+            for a in (False, True):
+                for b in (False, True):
+                    def decide(x, a=a, b=b):
+                        if x == src:
+                            return a
+                        if x == ("cmp", ("is",), (srpm, ("const", None))):
+                            return b
+                        return None
+                    if T.truth(t, decide) is not fn_(a, b):
+                        return False
+            return True
+        return pred
     want = {
-        "source-with-srpm": lambda t: t == ("boolop", "and", (src, ("cmp", ("is not",), (srpm, ("const", None))))),
-        "binary-without-srpm": lambda t: t == ("boolop", "and", (nsrc, ("cmp", ("is",), (srpm, ("const", None))))),
+        "source-with-srpm": table(lambda a, b: a and not b),
+        "binary-without-srpm": table(lambda a, b: (not a) and b),
         "category-vs-rpm-arch": lambda t: (t[0] == "cmp" and t[1] == ("!=",) and t[2][0] == src and t[2][1][0] == "cmp"
                                            and t[2][1][1] == ("in",) and t[2][1][2][0][0] == "sub"
                                            and t[2][1][2][0][2] == ("const", "arch")
